@@ -214,6 +214,9 @@ class CallMixin:
 
     def as_listing(self, v, p):
         """list(x) / tuple(x): Tup and Seq stay positional, everything else becomes a bag."""
+        if isinstance(v.ty, T.Opt):
+            self._raise_if(p, v.is_none, "TypeError", "list(None)")
+            return self.as_listing(v.val, p)
         if v.ty in (T.TUP, T.EMPTYLIST) or isinstance(v.ty, (T.Bag, T.Seq)):
             return v
         if isinstance(v.ty, T.Map):
@@ -259,6 +262,16 @@ class CallMixin:
             return T.scalar(st, s)
         if isinstance(v.ty, T.Map):
             return T.scalar(T.Set(v.ty.k), v.dom)
+        if isinstance(v.ty, T.Seq):
+            st = T.Set(v.ty.e)
+            s = fresh("setofseq", st.sort())
+            j = fresh("j", T.I)
+            x = fresh("x", v.ty.e.sort())
+            idx = z3.Function(f"idx!{next(T._fresh)}", v.ty.e.sort(), T.I)
+            self._assume(p, z3.ForAll([j], z3.Implies(z3.And(0 <= j, j < v.len), s[v.at[j]]), patterns=[v.at[j]]))
+            self._assume(p, z3.ForAll([x], z3.Implies(s[x], z3.And(0 <= idx(x), idx(x) < v.len, v.at[idx(x)] == x)), patterns=[s[x]]))
+            self._assume(p, z3.And(st.card()(s) <= v.len, st.card()(s) >= 0))
+            return T.scalar(st, s)
         raise Unsupported(f"set() of {v.ty}")
 
     def bi_sorted(self, e, p):
